@@ -23,6 +23,8 @@ func checkC19(c *Ctx) {
 	c.Rule("C19-R5", "the JS drawCell call is dominated by the Dirty test and paired with SetDirty(false); palette table for the 16 basic colours equals the xterm values")
 	c.Rule("C19-R9", "whoever clears the page outside a draw (Suspend) is followed by an invalidation of every cell before the next draw (Resume), or the page stays blank until Sync")
 	c.Expect("C19-R9", 1)
+	c.Rule("C19-R11", "the page keeps one node per column: painting a wide rune empties the nodes of the columns it covers (otherwise their old content stays on the page beside it and the row grows)")
+	c.Expect("C19-R11", 1)
 	c.Rule("C19-R10", "HideCursor moves the requested cursor position off-screen")
 	c.Expect("C19-R10", 1)
 	c.Rule("C19-R8", "Fini closes the quit channel exactly once and in every state (sync.Once around an unconditional close), so Fini after Suspend releases pollers and a second Fini is harmless")
@@ -407,6 +409,53 @@ func checkC19Draw(c *Ctx, p *Prog) {
 	}, 1)
 	checkDrawCellWidth(c, p, fn, "C19-R5")
 	checkResolvedStyle(c, p, fn, "C19-R5")
+	// R11: the page keeps one node per column.  A painted wide rune must empty the nodes of the columns it
+	// covers (a loop bounded by the cell's width whose drawCell call passes the constant "" as content),
+	// or what those nodes held stays on the page beside it.
+	{
+		var width ssa.Value
+		eachInstr(fn, func(in ssa.Instruction) {
+			if ex, ok := in.(*ssa.Extract); ok && ex.Index == 3 {
+				if call, isCall := ex.Tuple.(*ssa.Call); isCall && strings.HasSuffix(calleeName(&call.Call), "CellBuffer).GetContent") {
+					width = ex
+				}
+			}
+		})
+		ok, detail := false, "no drawCell call with empty content in a loop bounded by the cell's width"
+		loops := loopsOf(fn)
+		eachInstr(fn, func(in ssa.Instruction) {
+			cc := callCommon(in)
+			if cc == nil || calleeName(cc) != "(syscall/js.Value).Call" || len(cc.Args) < 3 {
+				return
+			}
+			if s, _ := constString(cc.Args[1]); s != "drawCell" {
+				return
+			}
+			n, vals, okV := varargCount(cc.Args[2])
+			if !okV || n < 3 {
+				return
+			}
+			content := vals[2]
+			if mi, isMI := content.(*ssa.MakeInterface); isMI {
+				content = mi.X
+			}
+			if s, isC := constString(content); !isC || s != "" {
+				return
+			}
+			for h, body := range loops {
+				if !body[in.Block()] {
+					continue
+				}
+				// the loop test compares the counter with the width
+				if iff, isIf := h.Instrs[len(h.Instrs)-1].(*ssa.If); isIf {
+					if dependsOn(iff.Cond, derefCellOrSelf(width), 4) {
+						ok, detail = true, "covered columns x+1 .. x+width-1 are emptied right after the wide cell is painted"
+					}
+				}
+			}
+		})
+		c.Check(ok && width != nil, "C19-R11", "(*wScreen).drawCell:covered-columns-emptied", p.pos(fn.Pos()), detail)
+	}
 	// palette table
 	tp := p.pkg("")
 	obj := tp.Types.Scope().Lookup("palette")
@@ -468,4 +517,11 @@ func checkC19Keys(c *Ctx, p *Prog) {
 		}
 	})
 	c.Check(plain, "C19-R7", "onKeyEvent:plain-name-lookup", p.pos(fn.Pos()), fmt.Sprintf("%d lookups in WebKeyNames, one of them under the unmodified key name and independent of the modifiers: %v %s", n, plain, detail))
+}
+
+func derefCellOrSelf(v ssa.Value) ssa.Value {
+	if v == nil {
+		return nil
+	}
+	return derefCell(v)
 }
